@@ -474,6 +474,21 @@ def stdout_rules(F, rep, cg, root, rwa, reach):
             kinds = set()
             for d, pol, dd in gs:
                 if d[0] == "discr" and "clap::error::ErrorKind" in d[2] and isinstance(pol, tuple) and pol[0] == "in": kinds |= set(pol[1])
+            if not kinds:
+                # `e.downcast_ref::<clap::Error>().filter(|c| matches!(c.kind(), DisplayHelp | DisplayVersion))` matched as Some
+                for d, pol, dd in gs:
+                    if d[0] == "discr" and "Option<" in str(d[2]) and isinstance(pol, tuple) and (("Some" in pol[1]) if pol[0] == "in" else ("None" in pol[1])):
+                        for o in mir.trace_place(root, d[1], transparent=()):
+                            if o.kind == "call" and (mir.callee(o.fn.blocks[o.data]["t"]) or "").endswith("Option::<T>::filter"):
+                                for o2 in mir.trace_op(root, o.fn.blocks[o.data]["t"][2][1], transparent=()):
+                                    if o2.kind == "agg" and mir.rv_at(o2.fn, *o2.data)[1].get("k") == "closure":
+                                        c_ = F.fn(mir.rv_at(o2.fn, *o2.data)[1]["path"])
+                                        if c_ is None: continue
+                                        c_ = mir.inlined(F, c_, depth=2, ok=app_ok)
+                                        for b3, s3, st3 in c_.stmts():
+                                            if st3[0] == "=" and st3[1] == [0] and st3[2][0] == "use" and st3[2][1][0] == "c" and st3[2][1][1].get("v") is True:
+                                                for d3, pol3, dd3 in mir.guards_of(c_, b3):
+                                                    if d3[0] == "discr" and "clap::error::ErrorKind" in str(d3[2]) and isinstance(pol3, tuple) and pol3[0] == "in": kinds |= set(pol3[1])
             if kinds and kinds <= {"DisplayHelp", "DisplayVersion"}: rep.ok("R13.4", "stdout print only for clap kinds %s" % sorted(kinds), nontrivial_key="kinds")
             else: rep.bad("R13.4", "print-on-error", "run() prints to stdout on an error path not confined to DisplayHelp/DisplayVersion (guards: %s)" % sorted(kinds), "%s bb%d" % (root.where(), bi))
     # R13.5 logging goes to stderr
